@@ -77,7 +77,7 @@ func (h *HyperLogLog32) Union(a, b *HyperLogLog32) error {
 	if a.p != b.p {
 		return errors.New("card: mismatched precision")
 	}
-	ta := reflect.TypeOf(b.hash)
+	ta := reflect.TypeOf(a.hash)
 	if reflect.TypeOf(b.hash) != ta {
 		return errors.New("card: mismatched hash function")
 	}
